@@ -804,10 +804,41 @@ func headerHelpers(c *core.Ctx) {
 			c.Decide(strings.Join(got, " ") == strings.Join(want, " "), "C02-HDRFN", key, fpos, "writes "+strings.Join(got, " ")+" = what ReadHeader reads",
 				fmt.Sprintf("%s writes [%s] but ReadHeader of the package reads [%s]: the helper does not produce the header its sibling parses", h.name, strings.Join(got, " "), strings.Join(want, " ")))
 		}
-		// the encoding/binary based pair (Header.Bytes, NewHeaderFromReader): the same words in the same order, big-endian
+		// Header.Bytes: the octets it returns (binary.Write into a local buffer, or PutUintN into a scratch slice)
+		if fn := c.Prog.LookupMethod(rel, "Header", "Bytes"); fn != nil {
+			key := rel + ".Header.Bytes"
+			fpos := c.Prog.Pos(fn.Pos())
+			seq, err := x.ExtractBytesMethod(fn)
+			switch {
+			case err != nil:
+				c.Unknown("C02-HDRFN", key, fpos, err.Error())
+			case len(seq.Opaque) > 0:
+				c.Unknown("C02-HDRFN", key, fpos, "not analysable: "+strings.Join(seq.Opaque, "; "))
+			default:
+				var got []string
+				bad := ""
+				for _, o := range seq.Ops {
+					if o.Kind != wire.INT || o.Field.Last() == nil {
+						bad = "an operation that is not an integer word of a header field: " + o.String()
+						break
+					}
+					if o.Order != "" && o.Order != "big" {
+						bad = "a header word is not written big-endian at " + c.Prog.Pos(o.Pos)
+					}
+					got = append(got, fmt.Sprintf("U%d(%s)", o.Width*8, o.Field.Last().Name()))
+				}
+				if bad != "" {
+					c.Fail("C02-HDRFN", key, fpos, bad)
+				} else {
+					c.Decide(strings.Join(got, " ") == strings.Join(ref, " "), "C02-HDRFN", key, fpos, "returns "+strings.Join(got, " ")+" = what ReadHeader reads",
+						fmt.Sprintf("Bytes returns [%s] but ReadHeader of the package reads [%s]", strings.Join(got, " "), strings.Join(ref, " ")))
+				}
+			}
+		}
+		// NewHeaderFromReader (encoding/binary.Read): the same words in the same order, big-endian
 		for _, h := range []struct {
 			typ, name, prim string
-		}{{"Header", "Bytes", "Write"}, {"", "NewHeaderFromReader", "Read"}} {
+		}{{"", "NewHeaderFromReader", "Read"}} {
 			var fn *types.Func
 			key := rel + "." + h.name
 			if h.typ != "" {
